@@ -6,7 +6,7 @@ use crate::clock;
 use crate::codec::{Packet, Prop};
 use crate::invalid::{self, ReqCtx};
 use crate::run::{self, with_session, ConnEnd};
-use crate::scen::{absorb, second_world, PRESTATES};
+use crate::scen::{absorb, second_world};
 use crate::util::{mix, Tape};
 use crate::world::{self, with, Phase, World};
 use minimq::QoS;
@@ -19,11 +19,13 @@ const FAULTS: u64 = 9;
 
 /// Fault kinds: 0-2 error kinds, 3 EOF, 4 broker DISCONNECT, 5 malformed packet, 6 cancel at this
 /// call, 7 drop the handle at this call, 8 forget the handle at this call.
+/// case index -> (pre-state, operation, I/O call index, fault kind). The pre-state is the
+/// slowest-varying digit so that a longer enumeration adds pre-states, not repetitions.
 fn decode(extra: u64) -> (u64, u64, u64, u64) {
-    let pre = extra % PRESTATES;
-    let op = (extra / PRESTATES) % OPS;
-    let idx = (extra / (PRESTATES * OPS)) % IO_IDX;
-    let fault = (extra / (PRESTATES * OPS * IO_IDX)) % FAULTS;
+    let fault = extra % FAULTS;
+    let idx = (extra / FAULTS) % IO_IDX;
+    let op = (extra / (FAULTS * IO_IDX)) % OPS;
+    let pre = extra / (FAULTS * IO_IDX * OPS);
     (pre, op, idx, fault)
 }
 
@@ -182,9 +184,14 @@ fn inject_and_run(conn: &mut Conn<'_, '_>, op: u64, idx: u64, fault: u64, kind: 
 
 // ------------------------------------------------------------------ C19 table
 
+pub fn table_cases() -> u64 {
+    4 * crate::codec::ALL_PROP_IDS.iter().map(|id| invalid::samples(*id).len() as u64).sum::<u64>()
+}
+
 pub fn table(extra: u64) {
-    let pre = extra % PRESTATES;
-    let entry = extra / PRESTATES;
+    let n_cases: u64 = 4 * crate::codec::ALL_PROP_IDS.iter().map(|id| invalid::samples(*id).len() as u64).sum::<u64>();
+    let pre = extra / n_cases;
+    let entry = extra % n_cases;
     // (context, property sample) from the entry index
     let mut cases: Vec<(ReqCtx, Prop)> = Vec::new();
     for ctx in [ReqCtx::Publish, ReqCtx::Subscribe, ReqCtx::Unsubscribe, ReqCtx::Disconnect] {
